@@ -1328,3 +1328,21 @@ UNITS["v_unix_timestamp"] = dict(
         Err(_) => true,
     }""")],
 )
+
+
+# ------------------------------------------------------------------------------------------------
+# C04 / C05: the hand-written byte iterator behind case-insensitive starts_with
+UNITS["v_chars_iter"] = dict(
+    prop=["C04", "C05"], tier="q", prelude=["charsiter.rs"], native_witness={"C04": ["stdlib_watchdog"], "C05": ["stdlib_watchdog"]},
+    fns=[dict(id="chars_next", file="src/stdlib/starts_with.rs", impl="impl Iterator for Chars<'_>", name="next",
+              orig_sig="fn next(&mut self) -> Option<Self::Item>",
+              wrap=("impl<'a> Chars<'a> {", "}"), sig="pub fn next(&mut self) -> (r: Option<Result<char, u8>>)",
+              requires=["old(self).pos <= old(self).bytes.b@.len()"],
+              rewrites=[dict(**{"from": "utf8_width::get_width(", "to": "get_width(", "count": 1, "why": "external crate function (contract: at most 4)"}),
+                        dict(**{"from": r"std::str::from_utf8\(&self\.bytes\[self\.pos\.\.([^\]]*?)\]\)", "regex": True, "count": 1, "to": r"from_utf8_range(self.bytes, self.pos, \1)", "why": "slice + from_utf8 as one call carrying the slice's bounds precondition"}),
+                        dict(**{"from": r"chr\.chars\(\)\.next\(\)", "regex": True, "optional": True, "to": "first_char(&chr)", "why": "str::chars().next()"}),
+                        dict(**{"from": r"self\.bytes\[([^\]]*?)\]", "regex": True, "to": r"self.bytes.at(\1)", "why": "byte indexing through Deref<[u8]> with its bounds precondition"})],
+              ensures=[("C05.chars_next.progress", "every call that yields an item consumes at least one byte and never moves past the end, so iterating a string takes at most as many steps as it has bytes; it ends exactly at the end of the input",
+                        "final(self).bytes == old(self).bytes && final(self).pos <= final(self).bytes.b@.len() && (r is Some ==> final(self).pos > old(self).pos) && (r is None ==> old(self).pos >= old(self).bytes.b@.len())")],
+              safety_id="C04.chars_next.safety", safety_text="no out-of-bounds slice or index and no unwrap of an empty decode, for every byte string (valid UTF-8 or not)")],
+)
